@@ -58,7 +58,11 @@ func TestVerifC11(t *testing.T) {
 							if rep.OutOfBudget() {
 								return
 							}
-							c11Run(rep, srv, a, s.path, ttl, mode, periods, tsbd, start, quick)
+							c11Run(rep, srv, a, s.path, ttl, mode, periods, tsbd, start, quick, false)
+							if periods == 0 && start == 0 && tsbd == 60 && mode != "number" {
+								// a stop time inside the walked interval: the last patch of a session crosses it
+								c11Run(rep, srv, a, s.path, ttl, mode, periods, tsbd, start, quick, true)
+							}
 						}
 					}
 				}
@@ -67,7 +71,7 @@ func TestVerifC11(t *testing.T) {
 	}
 }
 
-func c11Run(rep *vh.Report, srv *Server, a *vref.VAsset, asset string, ttl int, mode string, periods int, tsbd, start int64, quick bool) {
+func c11Run(rep *vh.Report, srv *Server, a *vref.VAsset, asset string, ttl int, mode string, periods int, tsbd, start int64, quick bool, withStop bool) {
 	v := a.Ref
 	var parts []string
 	switch mode {
@@ -83,10 +87,15 @@ func c11Run(rep *vh.Report, srv *Server, a *vref.VAsset, asset string, ttl int, 
 	if periods > 0 {
 		parts = append(parts, fmt.Sprintf("periods_%d", periods))
 	}
-	prefix := vCfgPrefix(parts...)
 	mpdName := vMPDNameFor(a, v.ID)
 	ast := start * 1000
 	segMS := a.LoopMS / int64(len(v.Segs))
+	var stopMS int64
+	if withStop {
+		stopMS = (ast + 50_000 + int64(ttl)*500 + segMS/2) / 1000 * 1000
+		parts = append(parts, fmt.Sprintf("stop_%d", stopMS/1000))
+	}
+	prefix := vCfgPrefix(parts...)
 	// instants: every availability instant (+-1 ms) from a base far enough for a full window, over TTL + 2 segments
 	base := ast + 50_000
 	if periods > 0 {
@@ -102,6 +111,9 @@ func c11Run(rep *vh.Report, srv *Server, a *vref.VAsset, asset string, ttl int, 
 		}
 		set[e-1], set[e], set[e+1] = true, true, true
 		set[e+tsbd*1000%segMS] = true
+	}
+	if stopMS > 0 {
+		set[stopMS-1], set[stopMS], set[stopMS+1], set[stopMS+700] = true, true, true, true
 	}
 	var ts []int64
 	for t := range set {
@@ -153,8 +165,11 @@ func c11Run(rep *vh.Report, srv *Server, a *vref.VAsset, asset string, ttl int, 
 		mpds[t] = m
 		return m
 	}
-	tag := mode + vIf(periods > 0, ":periods", "")
+	tag := mode + vIf(periods > 0, ":periods", "") + vIf(withStop, ":stop", "")
 	for i, t1 := range ts {
+		if stopMS > 0 && t1 >= stopMS {
+			break // after the stop time the MPD is static and offers no patch
+		}
 		m1 := get(t1)
 		if m1 == nil {
 			rep.Violate("C11.mpd", "mpd-failed:"+tag, fmt.Sprintf("%s %s t=%d: MPD not served", asset, prefix, t1), nil)
